@@ -43,7 +43,7 @@ func runERRFLOW(c *Ctx) {
 			may, name := false, ""
 			ext := c.Facts.External(ci)
 			for _, f := range c.Facts.Callees(ci) {
-				if c.Facts.MayFail[f] {
+				if c.Facts.MayFail[f] && !isErrorAccessor(c, f) {
 					may, name = true, f.Name()
 				}
 			}
@@ -461,4 +461,47 @@ func valuesUsedOnlyUnderNilErr(call *ssa.Call, ei int) bool {
 		}
 	}
 	return true
+}
+
+// isErrorAccessor: f only reads an error somebody recorded earlier — every error it returns is a load of an
+// error-typed field, captured variable or package variable, and it calls nothing that can fail itself. Calling
+// it does not produce a failure, so its call sites carry no reporting obligation of their own: the obligation
+// sits on the store that recorded the error (flush's first-error cell: BARRIER, ROOTSWAP).
+func isErrorAccessor(c *Ctx, f *ssa.Function) bool {
+	ei := ir.ErrorResultIndex(f.Signature)
+	if ei < 0 || f.Blocks == nil {
+		return false
+	}
+	for _, ci := range CallsOf(f) {
+		if ext := c.Facts.External(ci); strings.HasPrefix(ext, "callback:") || strings.HasPrefix(ext, "Persist.") {
+			return false
+		}
+		for _, g := range c.Facts.Callees(ci) {
+			if c.Facts.MayFail[g] {
+				return false
+			}
+		}
+	}
+	n := 0
+	for _, r := range ir.Returns(f) {
+		if ei >= len(r.Results) {
+			return false
+		}
+		v := ir.ResolveCell(r.Results[ei]) // (a deferred Unlock spills the result)
+		if ir.IsNilConst(v) {
+			continue
+		}
+		ld, ok := v.(*ssa.UnOp)
+		if !ok || ld.Op != token.MUL {
+			return false
+		}
+		switch a := ld.X.(type) {
+		case *ssa.FieldAddr, *ssa.FreeVar, *ssa.Global:
+			_ = a
+		default:
+			return false
+		}
+		n++
+	}
+	return n > 0
 }
